@@ -127,7 +127,8 @@ type subject struct {
 	same func(got any) string
 	// samePub returns "" when got holds exactly this public key
 	samePub func(got any) string
-	pubKey  any // public key object to marshal (nil when the family has none)
+	pubKey  any    // public key object to marshal (nil when the family has none)
+	uid     []byte // SM9 user keys: the identifier the key was generated for
 }
 
 var subjectLabels = func() []string {
@@ -541,7 +542,7 @@ func newSM9Subject(r *mon.Rand, label, fam, kind string) (*subject, error) {
 			return nil, fmt.Errorf("SM9 sign user key (master %x, uid %x): %v", d, uid, err)
 		}
 		kb := k.Bytes()
-		s.priv, s.d, s.pub = k, kb, mk.PublicKey().Bytes()
+		s.priv, s.d, s.pub, s.uid = k, kb, mk.PublicKey().Bytes(), uid
 		s.same = func(got any) string {
 			g, ok := got.(*sm9.SignPrivateKey)
 			if !ok || g == nil {
@@ -564,7 +565,7 @@ func newSM9Subject(r *mon.Rand, label, fam, kind string) (*subject, error) {
 			return nil, fmt.Errorf("SM9 encrypt user key (master %x, uid %x): %v", d, uid, err)
 		}
 		kb := k.Bytes()
-		s.priv, s.d, s.pub = k, kb, mk.PublicKey().Bytes()
+		s.priv, s.d, s.pub, s.uid = k, kb, mk.PublicKey().Bytes(), uid
 		s.same = func(got any) string {
 			g, ok := got.(*sm9.EncryptPrivateKey)
 			if !ok || g == nil {
